@@ -297,6 +297,13 @@ Definition is_inexpressible (a : action) : bool :=
 Definition sgr_inexpressible (params : list N) : bool :=
   existsb is_inexpressible (sgr_actions params).
 
+(* ---- the library's recorded behaviour (known finding C06-inexpressible) ----
+   The same machine except that the four parameters a FaceModify record cannot express --
+   7 / 27 (inverse on / off) and 39 / 49 (default foreground / background) -- change nothing. *)
+Definition act_lib (a : action) (r : rface) : rface := if is_inexpressible a then r else act a r.
+Definition ref_sgr_lib (params : list N) (r : rface) : rface :=
+  fold_left (fun r a => act_lib a r) (sgr_actions params) r.
+
 (* ---- histories: SGR sequences interleaved with text ---- *)
 Inductive hitem := HSgr (params : list N) | HText (chars : list N).
 
@@ -311,6 +318,15 @@ Definition ref_step (st : rface * list rcell) (h : hitem) : rface * list rcell :
 
 Definition ref_cells (r0 : rface) (hist : list hitem) : list rcell :=
   snd (fold_left ref_step hist (r0, [])).
+
+Definition ref_step_lib (st : rface * list rcell) (h : hitem) : rface * list rcell :=
+  let '(r, cells) := st in
+  match h with
+  | HSgr p => (ref_sgr_lib p r, cells)
+  | HText cs => (r, cells ++ map (fun c => (c, r)) cs)
+  end.
+Definition ref_cells_lib (r0 : rface) (hist : list hitem) : list rcell :=
+  snd (fold_left ref_step_lib hist (r0, [])).
 
 (* what a library face means as a rendition *)
 Definition has_flag (attrs flag : N) : bool := negb (N.land attrs flag =? 0).
